@@ -296,7 +296,7 @@ func (i IntersectsCap) Equal(other Query) bool {
 const indexUseFasterAboveVetexCount = 16
 
 func (i *IntersectsCap) IntersectsPolygon(p *s2.Polygon) bool {
-	if p.Loop(0).NumVertices() > indexUseFasterAboveVetexCount {
+	if p.NumLoops() > 0 && p.Loop(0).NumVertices() > indexUseFasterAboveVetexCount {
 		for _, id := range i.interior {
 			if p.IntersectsCell(s2.CellFromCellID(id)) {
 				return true
@@ -351,23 +351,24 @@ func (i *intersectsCap) EstimateLength() int {
 }
 
 func CapIntersectsPolygon(c s2.Cap, p *s2.Polygon) bool {
-	inside := 0
+	// The cap intersects the polygon if its center is inside the polygon,
+	// or if some edge of the polygon comes within its radius. (Testing
+	// whether the center is to the left of every edge of a loop is only
+	// a containment test for convex loops.)
+	if p.ContainsPoint(c.Center()) {
+		return true
+	}
 	for i := 0; i < p.NumLoops(); i++ {
 		loop := p.Loop(i)
-		onLeft := true
 		for j := 0; j < loop.NumEdges(); j++ {
 			edge := loop.Edge(j)
 			point := s2.Project(c.Center(), edge.V0, edge.V1)
 			if c.ContainsPoint(point) {
 				return true
 			}
-			onLeft = onLeft && s2.Sign(c.Center(), edge.V0, edge.V1)
-		}
-		if onLeft {
-			inside++
 		}
 	}
-	return inside%2 == 1
+	return false
 }
 
 type IntersectsFeature struct {
